@@ -203,7 +203,7 @@ def run_shard(ctx):
         for b, w in fails:
             ctx.fail(b, w, case)
 
-    forces = ["scan", "vmap", "cond", "vdist", "call", None]
+    forces = ["scan", "vmap", "indicator", "cond", "vdist", "call", None, "indicator"]
     drive(ctx, histories(forces[ctx.shard % len(forces)], P["max_ops"]), P["n_histories"], one, "hist")
 
 
